@@ -168,9 +168,9 @@ func vVal(r *rand.Rand, depth int) interface{} {
 	m := map[string]interface{}{}
 	n := r.Intn(3)
 	if n == 0 && depth < 2 {
-		// no nested empty maps here: registry.checkForUnusedBranches may loop forever on them (found and
-		// reported by the registryview driver, which calls View.Set under a watchdog); SetViaView would hang
-		// holding the state lock
+		// no nested empty maps here: a regression of the checkForUnusedBranches endless loop (fixed in
+		// c238b8d, probed by the registryview driver under a watchdog) would make SetViaView hang holding the
+		// state lock and turn a reportable violation into a dead driver
 		n = 1
 	}
 	for i := 0; i < n; i++ {
